@@ -26,7 +26,7 @@ from util import J
 LEVEL = "proof"
 C_RES, C_ERR = 10.0, 10.0
 RULE = ("(a) rank_chop of cpp/ortho.h on integer spectra: all tie patterns, zeros, length 1..6, eps>0; (b) amen_solve and fast_matvec with use_cpp in {True, False} on the "
-        "same inputs: SPD / diagonally dominant / Laplacian-like systems (order 2..4, modes 2..8), preconditioner None/'c'/'r', with and without initial guess, seeds; "
+        "same inputs: SPD / diagonally dominant / Laplacian-like systems (order 2..4, modes 2..8), preconditioner None/'c'/'r', max_full in {0 (iterative local solver), 500}, with and without initial guess, seeds; "
         "products of order 2..5, ranks 1..4, eps in [1e-12,1e-2]; invalid inputs (unknown preconditioner, wrong kinds, shape mismatch) must be rejected identically. "
         "Non-trivial: every case.")
 ASSUMPTIONS = ["the accuracy contracts are MONITORED on both backends (kind K); constants C = 10",
@@ -72,26 +72,27 @@ def rank_chop_cases(rng, tier):
 
 def solve_cases(rng, tier, stats):
     cases = []
-    for c in range(18 if tier == "quick" else 200):
+    for c in range(24 if tier == "quick" else 240):
         d = rng.choice([2, 2, 3, 3, 4])
         hi = 8 if d <= 3 else 4
         N = [rng.randint(2, hi) for _ in range(d)]
         kind = rng.choice(["laplace", "spd", "dd"])
         eps = 10.0 ** rng.uniform(-10, -3)
-        prec = rng.choice([None, "c", "r"])
+        prec = [None, "c", "r"][(c // 2) % 3]
         guess = rng.random() < 0.4
+        max_full = 0 if c % 2 == 1 else 500      # 0: every local system goes to the iterative (GMRES) solver, in both backends
         seed = rng.randrange(1 << 30)
-        label = "amen_solve/%s/d%d/prec-%s%s" % (kind, d, prec, "/guess" if guess else "")
+        label = "amen_solve/%s/d%d/prec-%s/maxfull%d%s" % (kind, d, prec, max_full, "/guess" if guess else "")
         box = {}
 
-        def impl(N=N, kind=kind, eps=eps, prec=prec, guess=guess, seed=seed, box=box):
+        def impl(N=N, kind=kind, eps=eps, prec=prec, guess=guess, seed=seed, box=box, max_full=max_full):
             tn.manual_seed(seed); np.random.seed(seed % (2 ** 32))
             A, b = system(rng, kind, N)
             x0 = torchtt.randn(N, [1] + [2] * (len(N) - 1) + [1]) if guess else None
             out = {}
             for cpp in (True, False):
                 tn.manual_seed(seed + 1)
-                x = S.amen_solve(A, b, x0=(x0.clone() if x0 is not None else None), eps=eps, nswp=40, preconditioner=prec, use_cpp=cpp, verbose=False)
+                x = S.amen_solve(A, b, x0=(x0.clone() if x0 is not None else None), eps=eps, nswp=40, preconditioner=prec, use_cpp=cpp, verbose=False, max_full=max_full)
                 if not isinstance(x, torchtt.TT) or x.is_ttm or list(x.N) != list(N):
                     box["shape"] = "use_cpp=%s returned shape %s" % (cpp, getattr(x, "N", None))
                     return "bad"
